@@ -45,6 +45,9 @@ PROC = {
     "trad": ("HvsrTraditionalProcessingSettings", dict(method_to_combine_horizontals="geometric_mean")),
     "azi": ("HvsrAzimuthalProcessingSettings", dict(azimuths_in_degrees=[0.0, 60.0, 120.0])),
     "diffuse": ("HvsrDiffuseFieldProcessingSettings", dict()),
+    # an explicit (nested, mutable) fft_settings dict: process() writes the resolved length INTO it
+    "trad_fftn": ("HvsrTraditionalProcessingSettings", dict(method_to_combine_horizontals="squared_average",
+                                                            fft_settings={"n": 1024})),
 }
 
 _DATA = None        # directory with inputs, settings and references (set by warm())
@@ -125,7 +128,7 @@ def _reference_job(d, stem, pre, proc):
 
 def _combos(tier):
     if tier == "quick":
-        return [("pre_plain", "trad"), ("pre_filt", "azi")]
+        return [("pre_plain", "trad"), ("pre_filt", "azi"), ("pre_plain", "trad_fftn")]
     return [(a, b) for a in PRE for b in PROC]
 
 
@@ -446,6 +449,8 @@ def roots(tier, seed):
             for (nproc, cpu) in nprocs:
                 if tier == "quick":
                     sel = [combos[0]] if (L < 3 and nproc != 1) else combos
+                    if L == 2 and nproc == 1:
+                        sel = combos
                 else:
                     # full product for traditional; the other kinds on the batches that
                     # contain the 500 Hz file (the only ones where anything can differ).
